@@ -749,7 +749,7 @@ class HaltTiming(Harness):
     what_symbolic = "trade prices (via agents' limit prices), rate r in (0,1), schedule; halt length and session layout are the case split"
     nontrivial_event = "a halt was triggered"
     reach = ("nontrivial", "fill-without-halt", "resumed", "order-accepted-during-halt", "halt-until-session-end")
-    bounds = {"quick": "1 target market (+1 non-target), halt length L in {1,2}, sessions [4 steps] / [2 steps, 2 steps "
+    bounds = {"quick": "1 target market (+1 non-target; one case with two targets of one rule), halt length L in {1,2}, sessions [4 steps] / [2 steps, 2 steps "
                        "execution] / [2 steps, 2 steps without execution], 2 agents quoting from step 1 on (buy/sell; "
                        "solver-chosen prices in [1,1000] at step 1, 300 afterwards), rate r in (0,1)",
               "thorough": "5-step session with solver-chosen prices again at step 3 (second halt against the doubled line), L=1"}
@@ -764,6 +764,9 @@ class HaltTiming(Harness):
             out.append({"L": L, "layout": [[2, True], [2, True]], "M": 1})
             out.append({"L": L, "layout": [[2, True], [2, False]], "M": 1})
         out.append({"L": 1, "layout": [[3, True]], "M": 2})
+        # one rule over two target markets: solver-chosen prices on the first at step 1 and on the second at step 2
+        # (inside the first one's halt, if it fired), quotes at 300 on the first afterwards
+        out.append({"L": 2, "layout": [[5, True]], "M": 2, "targets": ["M0", "M1"], "multi": True})
         # trades at several prices during step 0 (the time-0 reference keeps moving), a later excursion at step 2
         out.append({"L": 1, "layout": [[3, True]], "M": 1, "step0": True})
         if tier == "thorough":
@@ -778,7 +781,7 @@ class HaltTiming(Harness):
         sessions = [rn.session(i, n, True, e, maxNormalOrders=2) for i, (n, e) in enumerate(case["layout"])]
         sessions[0]["events"] = ["HALT"]
         st = rn.base_settings(n_agents=3 if case.get("sweep") else 2, sessions=sessions, markets=markets,
-                              extra={"HALT": {"class": "TradingHaltRule", "targetMarkets": ["M0"],
+                              extra={"HALT": {"class": "TradingHaltRule", "targetMarkets": case.get("targets", ["M0"]),
                                               "triggerChangeRate": 0.5, "haltingTimeLength": case["L"]}})
         for sd in st["simulation"]["sessions"]:
             sd["maxNormalOrders"] = 3
@@ -789,6 +792,9 @@ class HaltTiming(Harness):
                 "price_hi": 1000, "active_from": 1,
                 "price_by_time": {"1": "sym", "default": 300} if not case.get("second") else
                 {"1": "sym", "3": "sym", "default": 300}}
+        if case.get("multi"):
+            menu["price_by_time"] = {"1": "sym", "2": "sym", "default": 300}
+            menu["market_by_time"] = {"1": 0, "2": 1, "3": 0, "4": 0}
         if case.get("sweep"):
             menu["per_agent"] = {"0": {"side": "B"}, "1": {"side": "S", "vol_fixed": 2}, "2": {"side": "B"}}
         if case.get("step0"):
